@@ -281,6 +281,7 @@ func TestC10EventStream(t *testing.T) {
 	rec := evid.New(t, "C10", "scripted scenarios on a real Node: 1..4 channels (custom in-memory transports, TCP-server and UDP-server peers on loopback) each fed a generated script of valid tagged frames, complete frames with wrong checksum / wrong signature / missing signature and non-marker junk in generated chunkings (UDP: datagrams of one to many whole segments, up to 512 bytes), a consumer with generated pacing (fast, sleeping, bursty, paused then resumed), concurrent WriteMessageAll callers, late-connecting and disconnecting TCP peers; per channel the event sequence must match Open (Frame|ParseError)* Close?, frames == the valid frames of that channel's script in order with the channel's tag, rejected input only as ParseError, exactly one Close for a disconnected peer and nothing after it; non-trivial = >=2 channels with >=1 rejected segment and a non-fast consumer; distinct by hash of the scripts")
 	rec.Require("multi-channel+rejected+slow-consumer", "custom", "tcp", "udp", "inkey", "inkey+out-v1", "disconnect", "paused-consumer", "concurrent-writers", "stream-requests-enabled", "link-drops-right-after-last-byte+stream-requests", "udp-datagram-of-several-frames-over-280-bytes")
 	evid.Check(t, rec, evid.N(400, 1000), func(t *rapid.T) {
+		drawNodeInit(t)
 		w := &c10World{}
 		w.dialect = rapid.IntRange(0, 3).Draw(t, "dialect") > 0
 		w.outV1 = rapid.IntRange(0, 2).Draw(t, "out_v1") == 0
@@ -412,7 +413,7 @@ func runC10(w *c10World) error {
 	if w.outV1 {
 		n.OutVersion = gomavlib.V1 // the incoming key is independent of the outgoing version
 	}
-	if err := n.Initialize(); err != nil {
+	if err := initNode(&n); err != nil {
 		return fmt.Errorf("BROKEN: node init: %v", err)
 	}
 	rec := sim.StartRecorder(n, w.pacing, nil)
@@ -696,6 +697,7 @@ func TestC10ConcurrentStreams(t *testing.T) {
 	rec := evid.New(t, "C10", "2..4 custom channels each streaming 200..600 tagged DEBUG frames (every other one with a zero-truncated payload) in large chunks from parallel feeders, consumer fast or sleeping: per channel the frame events must be exactly that channel's frames in order (content decoded on one channel must never show bytes that arrived on another); non-trivial = >=3 channels; distinct by hash of the parameters")
 	rec.Require("3+channels")
 	evid.Check(t, rec, evid.N(40, 200), func(t *rapid.T) {
+		drawNodeInit(t)
 		nch := rapid.IntRange(2, 4).Draw(t, "nch")
 		nfr := rapid.IntRange(200, 600).Draw(t, "frames")
 		chunk := rapid.IntRange(16, 400).Draw(t, "chunk")
@@ -709,7 +711,7 @@ func TestC10ConcurrentStreams(t *testing.T) {
 			endpoints = append(endpoints, gomavlib.EndpointCustom{ReadWriteCloser: pipes[i]})
 		}
 		n := &gomavlib.Node{Endpoints: endpoints, Dialect: ardupilotmega.Dialect, OutVersion: gomavlib.V2, OutSystemID: 11, HeartbeatDisable: true}
-		if err := n.Initialize(); err != nil {
+		if err := initNode(&n); err != nil {
 			t.Fatalf("BROKEN: %v", err)
 		}
 		pacing := sim.Pacing{Kind: "fast"}
